@@ -38,7 +38,7 @@ def _nontrivial(script, r):
 
 def run(ctx, deep=False):
     thorough = deep or ctx.tier == "thorough"
-    n = 4000 if thorough else 400
+    n = 15000 if thorough else 1500
     ctx.coverage["rule"] = (
         "boundary scripts (a connection coming up exactly one tick before / at / after the expiry of a 1 s and of a 30 s message; a "
         "write fault on the n-th write for n <= 4 with each retry policy and outages shorter / longer than the lifetime; peer reset "
